@@ -256,9 +256,7 @@ Qed.
 Section Clip.
 Variable lt : SS -> SS -> Prop.
 Hypothesis ltb_spec : forall a b, ss_ltb a b = true <-> lt a b.
-Hypothesis lt_trans : forall a b c, lt a b -> lt b c -> lt a c.
 Hypothesis lt_irrefl : forall a, ~ lt a a.
-Hypothesis lt_total : forall a b, lt a b \/ a = b \/ lt b a.
 Hypothesis roundtrip : forall x, to_signed (of_signed x) = x.
 Hypothesis fmap_channels : forall g f, channels (fmap g f) = map g (channels f).
 
